@@ -13,7 +13,7 @@ for f in sorted(glob.glob('/verif/seeded/*/meta.json')):
         if line:
             first = line
             break
-    first = re.sub(r'\s+', ' ', first)[:160].replace('|', '/')
+    first = re.sub(r'\s+', ' ', first)[:110].replace('|', '/')
     det = m.get('detection', {})
     own = name.split('-')[0]
     caught = [c for c, d in det.items() if d.get('quick_detects')]
